@@ -10,6 +10,7 @@ independent evaluation the check compares with.
 -/
 import Pastel.RealInst
 import Pastel.Model.Color
+import Pastel.Lemmas.Hexcone
 
 namespace Pastel.C20
 open Pastel
@@ -61,5 +62,40 @@ theorem lms_matrices_near_inverse :
     |0.37095 * 0.68898 + 0.629054 * 1.18340 - (1 : ℝ)| < 3e-5 ∧
     |0.37095 * (-0.07868) + 0.629054 * 0.04641 - (0 : ℝ)| < 3e-5 := by
   refine ⟨?_, ?_, ?_, ?_, ?_, ?_⟩ <;> (rw [abs_lt]; constructor <;> norm_num)
+
+
+/-! ### Black stays black -/
+
+theorem quantize_zero : quantize (0 : ℝ) = 0 := by
+  have := real_toU8_round_chan 0
+  unfold chan at this
+  unfold quantize clamp
+  sc_norm
+  norm_num at this ⊢
+  exact this
+
+/-- **Black stays black** under all three simulations, for every alpha (exact arithmetic): the
+result is the 8-bit colour (0, 0, 0) with the input's (clamped) alpha. -/
+theorem black_stays_black (a : ℝ) (t : CbType) :
+    simulateColorblindness (fromRgba8 0 0 0 a : Color ℝ) t = fromRgba8 0 0 0 (fromRgba8 0 0 0 a : Color ℝ).alpha := by
+  have hf := fromRgba8_toRgbaFloat 0 0 0 a
+  have hchan : chan 0 = 0 := by unfold chan; norm_num
+  rw [hchan] at hf
+  have hxyz : toXyz (fromRgba8 0 0 0 a : Color ℝ) = ⟨0, 0, 0, (fromRgba8 0 0 0 a : Color ℝ).alpha⟩ := by
+    simp only [toXyz, hf, srgbDecode]
+    try sc_norm
+    norm_num
+  have hlms : toLms (fromRgba8 0 0 0 a : Color ℝ) = ⟨0, 0, 0, (fromRgba8 0 0 0 a : Color ℝ).alpha⟩ := by
+    simp only [toLms, hxyz]
+    try sc_norm
+    norm_num
+  have hback : ∀ al : ℝ, (fromLms 0 0 0 al : Color ℝ) = fromRgba8 0 0 0 al := by
+    intro al
+    simp only [fromLms, fromXyz, srgbEncode, fromRgbaFloat]
+    try sc_norm
+    norm_num
+    rw [quantize_zero]
+  cases t <;> simp only [simulateColorblindness, hlms] <;> norm_num <;> exact hback _
+
 
 end Pastel.C20
